@@ -32,8 +32,8 @@ def load_unit(name):
 def find_target(L, t):
     """must-fire rule: a target named by a spec must be found exactly once"""
     idx = L.idx
-    if 'lambda_in' in t or 'region_in' in t:
-        host = find_target(L, {'qname': t.get('lambda_in') or t.get('region_in'), 'type': t.get('host_type')})
+    if 'lambda_in' in t or 'region_in' in t or 'local_method_in' in t:
+        host = find_target(L, {'qname': t.get('lambda_in') or t.get('region_in') or t.get('local_method_in'), 'type': t.get('host_type')})
         return host
     cands = [n for n in idx.funcs.get(t['qname'], []) if Index.has_body(n) and n['id'] not in idx.pattern]
     if t.get('type'):
@@ -62,6 +62,8 @@ def lower_unit(u, outdir):
         n = find_target(L, t)
         if 'lambda_in' in t:
             f = lower_ext.request_lambda(L, n, t)
+        elif 'local_method_in' in t:
+            f = lower_ext.request_local_method(L, n, t)
         elif 'region_in' in t:
             f = lower_ext.request_region(L, n, t)
         else:
